@@ -543,6 +543,30 @@ func (g *c06Gen) shrunk(thorough bool) {
 		}
 		g.finish(all, 1+g.rng.Intn(2*p.B))
 	}
+	// 5b. more than R popular keys but only two distinct counts (inside the rank bound): R keys fill two batches each,
+	//     key 1 fills one batch that stays in flight and gets one more entry, then the periodic flush runs.  purge()
+	//     counts distinct VALUES, so nothing is evicted and key 1 stays protected; a purge that counts keys evicts it
+	//     and its newest entry is written ahead of the batch in flight.
+	if p.Shrunk && p.R <= 64 {
+		for i, sc := range []string{"lazy", "eager", "rand 5"} {
+			g.begin(fmt.Sprintf("many-popular-keys #%d", i), sc)
+			M := uint64(p.M)
+			for k := 2; k <= p.R+1+i; k++ {
+				for j := 0; j < 2*p.B; j++ {
+					g.push(M*uint64(j)+1, uint64(k))
+				}
+			}
+			for j := 0; j < p.B; j++ {
+				g.push(M*uint64(j)+1, 1)
+			}
+			g.push(M+1, 1)
+			for a := uint64(1000); a < 1000+uint64(p.K)+1; a++ {
+				g.push(M+1, a)
+			}
+			g.push(M*10, 2000)
+			g.finish([]uint64{1, 2, uint64(p.R + 1)})
+		}
+	}
 	// 6. beyond the rank bound (latent defect, threshold-shrunk copy only): R+1 distinct counts, the key with the
 	//    lowest count has a batch in flight and one more entry when the periodic flush runs
 	if p.Shrunk && p.R <= 64 {
